@@ -166,6 +166,8 @@ def build(model, ranks=None, plain=False, default_resource_ids=False, share_id_o
                     main_workplace_id=("".join(list(wj["mainwp"])) if wj.get("mainwp") is not None else None),
                     quality_skill_mean_map={},
                     quality_skill_sd_map={},
+                    # a worker who names another team than the one that lists him (BaseTeam keeps a team_id that is set already)
+                    **({"team_id": "".join(list(wj["team_id"]))} if wj.get("team_id") else {})
                 )
             )
         if mj.get("ctor_targets"):
